@@ -486,8 +486,13 @@ func orPred(ps ...FnPred) FnPred {
 func closureArgs(site ssa.CallInstruction) []*ssa.Function {
 	var out []*ssa.Function
 	for _, a := range site.Common().Args {
-		if mc, ok := resolve(a).(*ssa.MakeClosure); ok {
-			out = append(out, mc.Fn.(*ssa.Function))
+		switch x := resolve(a).(type) {
+		case *ssa.MakeClosure:
+			out = append(out, x.Fn.(*ssa.Function))
+		case *ssa.Function:
+			if x.Parent() != nil {
+				out = append(out, x) // function literal without captures
+			}
 		}
 	}
 	return out
